@@ -269,13 +269,15 @@ pub static HARD_LINKS: AtomicU64 = AtomicU64::new(0);
 /// two names of one inode are two files all the same.
 fn write_file(entries: &[Entry], e: &Entry, bytes: &[u8], at: &Path) {
     let p = at.join(&e.name);
-    if crate::engine::fnv(&e.name) % 2 == 0 && !bytes.is_empty() {
+    // (never a file called solstat_report.md: a run whose working directory is this directory rewrites
+    // that file in place, and with it every other name of the same inode)
+    if crate::engine::fnv(&e.name) % 2 == 0 && !bytes.is_empty() && e.name != "solstat_report.md" {
         for prev in entries {
             if std::ptr::eq(prev, e) {
                 break;
             }
             if let Kind::File(b) = &prev.kind {
-                if b.as_slice() == bytes && std::fs::hard_link(at.join(&prev.name), &p).is_ok() {
+                if prev.name != "solstat_report.md" && b.as_slice() == bytes && std::fs::hard_link(at.join(&prev.name), &p).is_ok() {
                     HARD_LINKS.fetch_add(1, Ordering::Relaxed);
                     return;
                 }
